@@ -229,6 +229,21 @@ maildir_move(struct maildir *src, const struct maildir *dst,
 
 	if (!error)
 		error = message_set_file(msg, dst->md_path, dstname, -1);
+	/*
+	 * The new name carries the seen flag according to the subdirectory
+	 * transition, let the flags of the message reflect its new name in
+	 * order to not lose the transition if the message is written again.
+	 */
+	if (!error) {
+		struct message_flags *flags = message_get_flags(msg);
+
+		if (src->md_subdir == SUBDIR_NEW &&
+		    dst->md_subdir == SUBDIR_CUR)
+			(void)message_flags_set(flags, 'S');
+		else if (src->md_subdir == SUBDIR_CUR &&
+		    dst->md_subdir == SUBDIR_NEW)
+			(void)message_flags_clr(flags, 'S');
+	}
 
 	return error;
 }
